@@ -36,6 +36,7 @@ class Ctx:
         self.edges = 0
         self.floors = []  # (rule, counted, minimum)
         self.notes = []
+        self.has_async = False
 
     # -- recording ---------------------------------------------------------
     def _fnkey(self, fn):
